@@ -3,7 +3,7 @@
 From Coq Require Import List QArith Reals Ring.
 From PV Require Import C07.CxBase C07.GatesGen C07.MomentsModel C07.GatesModel C07.SumLemmas
   C07.MomentsProofs C07.RealOps C07.GatesProofs C07.DisplacementProofs C07.CxReal
-  C07.MatF C07.StepK C07.SeqProofs C07.QuadProofs C07.RealSeq C07.RealQuad C07.RealGate.
+  C07.MatF C07.StepK C07.SeqProofs C07.QuadProofs C07.EmbedSympl C07.RealSeq C07.RealQuad C07.RealGate.
 Import ListNotations.
 Open Scope R_scope.
 
@@ -265,6 +265,66 @@ Theorem C07_builtin_gate_acts_as_documented :
          (trf S) i j).
 Proof. exact builtin_gate_acts_as_documented. Qed.
 Print Assumptions C07_builtin_gate_acts_as_documented.
+
+(* 2. embed_symplectic: a block pair (P, A) with P P^dagger = I + A A^dagger and P A^T symmetric,
+   embedded in the identity on any duplicate-free tuple of modes (any order, any d), is a symplectic
+   2d x 2d ladder-operator matrix: S diag(I,-I) S^dagger = diag(I,-I) *)
+Theorem C07_embed_symplectic :
+  forall (A : Type) (co : COps A),
+  ring_theory (z0 co) (z1 co) (zadd co) (zmul co) (zsub co) (zopp co) eq ->
+  zconj co (z0 co) = z0 co -> zconj co (z1 co) = z1 co ->
+  (forall x y, zconj co (zadd co x y) = zadd co (zconj co x) (zconj co y)) ->
+  (forall x y, zconj co (zmul co x y) = zmul co (zconj co x) (zconj co y)) ->
+  (forall x, zconj co (zconj co x) = x) ->
+  forall (d : nat) (modes : list nat) (P Am : mat),
+  modes_ok d modes -> sympl1 co (length modes) P Am -> sympl2 co (length modes) P Am ->
+  eqm (d + d) (cong co (d + d) (Sgate co d modes P Am) (Omc co d)) (Omc co d).
+Proof. exact (@embed_symplectic). Qed.
+Print Assumptions C07_embed_symplectic.
+
+(* ... and the real matrix Sr of the xxpp basis satisfies Sr Omega Sr^T = Omega,
+   Omega = [[0, I], [-I, 0]] *)
+Theorem C07_embed_real_symplectic :
+  forall (A : Type) (co : COps A),
+  ring_theory (z0 co) (z1 co) (zadd co) (zmul co) (zsub co) (zopp co) eq ->
+  zconj co (z0 co) = z0 co -> zconj co (z1 co) = z1 co ->
+  (forall x y, zconj co (zadd co x y) = zadd co (zconj co x) (zconj co y)) ->
+  (forall x y, zconj co (zmul co x y) = zmul co (zconj co x) (zconj co y)) ->
+  (forall x, zconj co (zconj co x) = x) ->
+  forall (d : nat) (ii half : A),
+  zmul co ii ii = zopp co (z1 co) -> zconj co ii = zopp co ii ->
+  zmul co (zadd co (z1 co) (z1 co)) half = z1 co ->
+  forall (modes : list nat) (P Am : mat),
+  modes_ok d modes -> sympl1 co (length modes) P Am -> sympl2 co (length modes) P Am ->
+  let S := Sr co ii half d (embedP co modes P) (embedA co modes Am) in
+  eqm (d + d) (mmf co (d + d) (mmf co (d + d) S (Om co d)) (trf S)) (Om co d).
+Proof. exact (@embed_real_symplectic). Qed.
+Print Assumptions C07_embed_real_symplectic.
+
+(* the first sentence of the property: every built-in linear gate's ladder-operator transformation,
+   embedded on any duplicate-free tuple of modes of any d, is symplectic for all real parameters -
+   in the complex form and as the real xxpp matrix that acts on mean and covariance *)
+Theorem C07_builtin_gate_symplectic_real :
+  forall d g theta phi int_ ext r s modes,
+  modes_ok d modes -> length modes = n_modes g ->
+  let e := env_R theta phi int_ ext r s in
+  let P := passive_block ROps g e in
+  let Am := active_or_nil g e in
+  eqm (d + d) (cong RC (d + d) (Sgate RC d modes P Am) (Omc RC d)) (Omc RC d) /\
+  eqm (d + d) (mmf RC (d + d) (mmf RC (d + d) (SrR d modes P Am) (Om RC d)) (trf (SrR d modes P Am)))
+      (Om RC d).
+Proof. exact builtin_gate_symplectic_real. Qed.
+Print Assumptions C07_builtin_gate_symplectic_real.
+
+(* a consequence of the invariants carried by the sequence theorem: the modelled xxpp covariance
+   matrix is symmetric after every program of admissible instructions *)
+Theorem C07_covariance_symmetric_after_program : forall d (prog : list (@op R)) s hbar,
+  Forall (op_ok d) prog -> herm RC d (st_C s) -> symm RC d (st_G s) ->
+  let s' := run ROps d prog s in
+  forall i j, (i < d + d)%nat -> (j < d + d)%nat ->
+  covR d hbar (st_C s') (st_G s') i j = covR d hbar (st_C s') (st_G s') j i.
+Proof. exact covariance_symmetric_after_program. Qed.
+Print Assumptions C07_covariance_symmetric_after_program.
 
 (* non-vacuity: the model runs *)
 Example C07_example_squeezing2_block :
